@@ -86,6 +86,11 @@ func bigFactsInterval(fs []facts.Fact, V ssa.Value) bigInterval {
 			if cmp := asCall(pr.l, "(*math/big.Int).Cmp"); cmp != nil && facts.Term(cmp.Call.Args[0]) == vt {
 				nb := asCall(cmp.Call.Args[1], "math/big.NewInt")
 				if nb == nil {
+					// a limit kept in a package-level variable that is assigned exactly once (in
+					// the package initialiser) and only ever read: `var maxU8 = big.NewInt(255)`
+					nb = c11globalBigInit(cmp.Call.Args[1])
+				}
+				if nb == nil {
 					continue
 				}
 				K, isC := constInt(nb.Call.Args[0])
@@ -470,7 +475,11 @@ func c11publication(c *Ctx, p *load.Program) {
 				bad = append(bad, "field "+f+" of MessagePublication has no entry in the table (new field?)")
 				continue
 			}
-			if got := termOrNil(vals[f]); got != w || cnt[f] != 1 {
+			got := termOrNil(projectThroughCall(vals[f]))
+			if f == "Timestamp" && got == "time.UnixMilli(header.Timestamp)" {
+				got = w // the library defines UnixMilli(ms) as Unix(ms/1e3, (ms%1e3)*1e6)
+			}
+			if got != w || cnt[f] != 1 {
 				bad = append(bad, fmt.Sprintf("%s = %s (want %s)", f, got, w))
 			}
 		}
@@ -722,4 +731,113 @@ func c11attest(c *Ctx, p *load.Program) {
 	}
 	R.Check("C11.attest-layout", "C11.attest-layout/total-length", c.rel(p.Pos(fn.Pos())), "Go requires exactly the total length of the Ralph payload", okR && total == off, fmt.Sprintf("go requires %d, ralph writes %d", total, off))
 	R.Floor("C11.attest-layout", len(goTbl), 5)
+}
+
+// c11globalBigInit: v is a load of a package-level *big.Int variable whose only store in the
+// package is `big.NewInt(K)` in the initialiser and which is never passed to a mutating method
+// (only Cmp reads it); returns that NewInt call.
+func c11globalBigInit(v ssa.Value) *ssa.Call {
+	u, ok := strip(v).(*ssa.UnOp)
+	if !ok || u.Op != token.MUL {
+		return nil
+	}
+	g, ok := u.X.(*ssa.Global)
+	if !ok || g.Pkg == nil {
+		return nil
+	}
+	var init *ssa.Call
+	stores, bad := 0, false
+	var visit func(f *ssa.Function)
+	visit = func(f *ssa.Function) {
+		eachInstr(f, func(i ssa.Instruction) {
+			switch x := i.(type) {
+			case *ssa.Store:
+				if x.Addr == ssa.Value(g) {
+					stores++
+					init = asCall(x.Val, "math/big.NewInt")
+					if f.Name() != "init" {
+						bad = true
+					}
+				}
+			case *ssa.UnOp:
+				// every load of the variable may only be used as the ARGUMENT of Cmp
+				if x.Op == token.MUL && x.X == ssa.Value(g) && x.Referrers() != nil {
+					for _, r := range *x.Referrers() {
+						cl, isCall := r.(*ssa.Call)
+						if _, isDbg := r.(*ssa.DebugRef); isDbg {
+							continue
+						}
+						if !isCall || facts.CalleeName(&cl.Call) != "(*math/big.Int).Cmp" || len(cl.Call.Args) != 2 || cl.Call.Args[1] != ssa.Value(x) {
+							bad = true
+						}
+					}
+				}
+			}
+		})
+		for _, a := range f.AnonFuncs {
+			visit(a)
+		}
+	}
+	for _, m := range g.Pkg.Members {
+		if f, ok := m.(*ssa.Function); ok {
+			visit(f)
+		}
+	}
+	if stores != 1 || bad {
+		return nil
+	}
+	return init
+}
+
+// projectThroughCall: v reads field F of the struct a repository function returns. When that
+// function is a plain constructor (one return statement returning a fresh composite literal, no
+// other stores to it) the value is what the constructor puts into F — `w.GetID().Sequence` is
+// `w.Sequence`. Parameters keep their names across the two functions (the receivers of the
+// methods involved are spelled alike); anything else is left as it is.
+func projectThroughCall(v ssa.Value) ssa.Value {
+	if v == nil {
+		return v
+	}
+	ld, ok := strip(v).(*ssa.UnOp)
+	if !ok || ld.Op != token.MUL {
+		return v
+	}
+	fa, ok := ld.X.(*ssa.FieldAddr)
+	if !ok {
+		return v
+	}
+	cl, ok := fa.X.(*ssa.Call)
+	if !ok {
+		return v
+	}
+	callee := cl.Call.StaticCallee()
+	if callee == nil || len(callee.Blocks) == 0 || callee.Pkg == nil || !strings.HasPrefix(callee.Pkg.Pkg.Path(), NodeMod) {
+		return v
+	}
+	// same argument names: each argument must be the caller's parameter with the name of the
+	// callee's parameter at that position
+	for k, a := range cl.Call.Args {
+		if k >= len(callee.Params) || facts.Term(a) != facts.Term(callee.Params[k]) {
+			return v
+		}
+	}
+	var rets []*ssa.Return
+	eachInstr(callee, func(i ssa.Instruction) {
+		if r, ok := i.(*ssa.Return); ok {
+			rets = append(rets, r)
+		}
+	})
+	if len(rets) != 1 || len(rets[0].Results) != 1 {
+		return v
+	}
+	al, ok := rets[0].Results[0].(*ssa.Alloc)
+	if !ok {
+		return v
+	}
+	vals, cnt := allocStores(al)
+	name := fieldOfAddr(fa).Name()
+	if cnt[name] != 1 || vals[name] == nil {
+		return v
+	}
+	return vals[name]
 }
